@@ -50,7 +50,8 @@ PROBES = ["waiter_parked_on_thread_lock_during_swap", "two_first_starts_racing",
           "reply_later_than_timeout", "stale_reply_waiting_in_queue", "foreign_reply_seen_by_query",
           "first_start_with_queries_disabled", "no_active_terminal",
           "process_lock_creation_failed", "synchronized_call_raised", "screen_write_step",
-          "screen_input_poll_step",
+          "screen_input_poll_step", "process_start_wrapped_by_someone_else_before_import",
+          "write_cut_short",
           "process_start_failed_after_hand_over"]
 COMPONENTS = {
     "real": ["term_image.utils.lock_tty / query_terminal / read_tty / write_tty / get_cell_size",
@@ -143,6 +144,10 @@ def gen_program(ch, depth, budget, mode="getters"):
             nthreads = ch.int("child_threads", 1, 2)
             steps.append(("start", [gen_program(ch, depth + 1, budget, mode)
                                     for _ in range(nthreads)]))
+        elif kind == "write" and ch.bool("write_cut_short", 0.4):
+            # the terminal takes only part of the data at first (a signal arrived, the output
+            # queue was full): write() returns a short count
+            steps.append(("write_short",))
         else:
             steps.append((kind,))
     return steps
@@ -215,9 +220,14 @@ def run(ch, ctx, fault=None):
     cur_late = [False]
     decrqm_re = re.compile(rb"\x1b\[\?(\d+);0\$y")
 
+    # some other package wrapped Process.start (functools.wraps) before the library was
+    # imported - in every process of the tree: the library's hooks go on top all the same
+    prewrapped = mode in ("getters", "late") and ch.bool("process_start_prewrapped", 0.15)
     with w:
-        pw = procs.ProcWorld(w)
-        u0 = w.utils
+        pw = procs.ProcWorld(w, prewrapped)
+        u0 = pw.p0.utils
+        if prewrapped:
+            ctx.probe("process_start_wrapped_by_someone_else_before_import")
         # warm the memoized getters before concurrency starts (as the docs advise)
         u0.get_terminal_name_version()
         u0.get_fg_bg_colors()
@@ -278,7 +288,30 @@ def run(ch, ctx, fault=None):
 
         out._deliver = deliver
 
+        direct_writers = {}      # task -> its write_tty() call has bytes on the wire already
+        short_for = {}           # task -> writes left that the terminal cuts short
+
+        def short_write(data):
+            me = tid()
+            if short_for.get(me) and len(data) > 1:
+                short_for[me] -= 1
+                return len(data) // 2
+            return len(data)
+
+        tty.short_write = short_write
+
         def tty_write_hook(data):
+            me = tid()
+            for other, begun in direct_writers.items():
+                if begun and other != me:
+                    direct_writers[other] = "foreign bytes followed"
+            if me in direct_writers:
+                # (a call that goes on writing after somebody else's bytes went out had let go
+                # of the terminal in the middle of its data)
+                if direct_writers[me] == "foreign bytes followed":
+                    raise Violation("bytes_of_one_write_tty_call_not_contiguous_on_the_wire",
+                                    {"writer": me, "data": data[:30]}, "write")
+                direct_writers[me] = True
             if vt.synced and sync_owner[0] not in (None, tid()):
                 raise Violation("terminal_written_during_another_tasks_synchronized_update",
                                 {"writer": tid(), "owner": sync_owner[0], "data": data[:30]},
@@ -383,8 +416,19 @@ def run(ch, ctx, fault=None):
                     k.block_until(lambda n=n: n in arrived, k.now + 400_000_000, "late-reply")
                     if n in arrived:
                         ctx.probe("stale_reply_waiting_in_queue")
-                elif kind == "write":
-                    utils.write_tty(b"\x1b[0m")
+                elif kind in ("write", "write_short"):
+                    # whatever the library does about a short write: what one write_tty() call
+                    # puts on the wire is not interleaved with anybody else's bytes
+                    me = tid()
+                    if kind == "write_short":
+                        ctx.probe("write_cut_short")
+                        short_for[me] = 1
+                    direct_writers[me] = False
+                    try:
+                        utils.write_tty(b"\x1b[0m\x1b[0m")
+                    finally:
+                        direct_writers.pop(me, None)
+                        short_for.pop(me, None)
                 elif kind == "read":
                     got = utils.read_tty()
                     check(got == b"", "reply_of_another_caller_was_stolen",
@@ -471,6 +515,7 @@ def run(ch, ctx, fault=None):
         finally:
             k.tracefunc = None
             tty.write_hook = None
+            tty.short_write = None
             tty.reply_filter = None
             tty.__dict__.pop("input_arrives", None)
             out._deliver = orig_deliver
